@@ -374,3 +374,36 @@ Proof.
   - reflexivity.
   - reflexivity.
 Qed.
+
+(* ---------- C11 ---------- *)
+
+(* An accepted disclosure proof with a non-revocation part: the embedded accumulator passed the
+   signature check for this key (oracle), its nu is the one the proof was verified against, the
+   proof's challenge is the list challenge, and the proven witness value alpha is the response
+   of a hidden attribute of this same proof (one below the 2^(195+256+128+1) bound), and alpha
+   is within its own bound. *)
+Theorem nonrev_accept_lem pk p rc ch nr :
+  proofD_verify_wc pk p rc ch = Ok true -> pd_nr p = Some nr ->
+  exists idx resp a,
+    lookup_ptr (pd_AResp p) idx = Some resp /\
+    nr_sacc nr = SaccOk a /\ nr_Nu nr = Some (acc_Nu a) /\ nr_Chal nr = Some rc /\
+    nr_result nr Salpha = Some resp /\ resp <= rev_bTwoZk.
+Proof.
+  unfold proofD_verify_wc. intros H Hnr. rewrite Hnr in H.
+  destruct (proofD_validate pk p); cbn [negb] in H; [|discriminate].
+  destruct (rev_index p ch) as [idx| |] eqn:Ei; cbn [obind] in H; try discriminate.
+  destruct (idx <? 0); [discriminate|].
+  destruct (lookup_ptr (pd_AResp p) idx) as [resp|] eqn:El; [|discriminate].
+  destruct (nr_verify_with_challenge nr rc) as [v| |] eqn:Ev; cbn [obind] in H; try discriminate.
+  destruct v; cbn [negb] in H; [|discriminate].
+  destruct (nr_result nr Salpha) as [alpha|] eqn:Ea; cbn [deref obind] in H; [|discriminate].
+  destruct (Z.eqb_spec alpha resp) as [->|]; [|discriminate].
+  unfold nr_verify_with_challenge in Ev.
+  destruct (nr_verify_structure nr); cbn [negb] in Ev; [|discriminate].
+  rewrite Ea in Ev. destruct (nr_Nu nr) as [nu|]; [|discriminate]. destruct (nr_Chal nr) as [c|]; [|discriminate].
+  destruct (Z.ltb_spec rev_bTwoZk resp); [discriminate|].
+  destruct (nr_sacc nr) as [| | |a]; try discriminate.
+  destruct (Z.eqb_spec nu (acc_Nu a)) as [->|]; cbn [negb] in Ev; [|discriminate].
+  destruct (Z.eqb_spec c rc) as [->|]; [|discriminate].
+  exists idx, resp, a. repeat split; auto.
+Qed.
